@@ -205,6 +205,13 @@ class Builder:
         followed by more formulas of the outer scope"""
         r = self.rnd
         evs = self.seq(depth + 2, allow_side=False)
+        if depth == 0 and r.random() < .3:
+            # a footnote inside the scope: its text is in the language of the scope, and the scope ends as usual
+            self.emit(' \\footnote{')
+            evs += [self.formula()]
+            self.emit('} ')
+            evs += [self.formula()]
+            self.ctx.add('lang_footnote')
         if r.random() < .5:
             outer = self.lang
             inner = r.choice([outer, outer, 'en', 'de', 'ru'])
@@ -332,7 +339,7 @@ class C10(core.Check):
         q = {'formulas_judged': 20000, 'with_punctuation': 3000, 'second_copies': 300,
              'ml_docs_with_two_languages': 200}
         for c in ('plain', 'unkarg', 'declarg', 'userarg', 'twice', 'item', 'footnote', 'group', 'cell', 'heading', 'heading_lang',
-                  'caption', 'lang_foreign', 'lang_select', 'lang_env', 'lang_nested', 'lang_nested_same'):
+                  'caption', 'lang_foreign', 'lang_select', 'lang_env', 'lang_nested', 'lang_nested_same', 'lang_footnote'):
             q['ctx_' + c] = 100
         return q
 
